@@ -576,7 +576,9 @@ def plan(tier, seed, which):
         pair_combos += [(gens[0], 'latin_1', False), (gens[1], 'cp500', True)]
         # the same configurations supplied with their keys in string-sorted (non-ascending) order
         pair_combos += [('PKGS', 'latin_1', False), (gens[0] + 'S', 'cp500', False)]
-        order_combos = [('PKGS', 'latin_1', False), (gens[0] + 'S', 'cp500', False)]
+        order_combos = [('PKGS', 'latin_1', False), (gens[0] + 'S', 'cp500', False), ('PKGJ', 'cp500', False),
+                        (gens[1] + 'J', 'latin_1', True)]
+        pair_combos += [('PKGJ', 'latin_1', False)]
         # widths beyond anything the packaged configuration uses (FIXED 1002..2000, 30-60 digit numbers)
         combos += [('WIDE', 'latin_1', False), ('WIDE', 'cp500', True), ('WIDE', 'default', False)]
         pair_combos += [('WIDE', 'latin_1', False)]
@@ -591,6 +593,9 @@ def plan(tier, seed, which):
         pair_combos += [('PKGS', 'latin_1', False), ('PKGS', 'cp500', True)] + \
             [('GEN%dS' % s, 'latin_1', False) for s in range(14)]
         order_combos = [('PKGS', 'latin_1', False)] + [('GEN%dS' % s, 'cp500', False) for s in range(0, 14, 3)]
+        order_combos += [('PKGJ', 'cp500', False), ('PKGJ', 'latin_1', True)] + [('GEN%dJ' % s, 'latin_1', False)
+                                                                                 for s in range(0, 14, 4)]
+        pair_combos += [('PKGJ', 'latin_1', False), ('PKGJ', 'cp500', True)]
         combos += [('WIDE', e, h) for e in isogen.ENCODINGS_ALL + ['default'] for h in (False, True)]
         pair_combos += [('WIDE', 'latin_1', False), ('WIDE', 'cp500', True)]
     for cfgname, enc, hx in combos:
